@@ -69,6 +69,9 @@ func sink[R any](c <-chan R, out *[]R, mask uint64, wg *sync.WaitGroup) {
 	}
 }
 
+// CensusAnomalies counts the times the goroutine dump missed a feeder that was still alive.
+var CensusAnomalies int64
+
 var mu sync.Mutex // one case at a time per process: the census is process-wide
 
 // Run executes build on channels fed from ins and returns what every output delivered.
@@ -137,7 +140,22 @@ func Run[T any, R any](ins [][]T, opt Opts, build func([]<-chan T) []<-chan R) R
 	for spin := 0; ; spin++ {
 		v, rel := base.Verdict()
 		if v == census.None {
-			return finish("ok", "")
+			// cross-check with ground truth the harness owns: "no goroutine of this case is left"
+			// implies that every feeder has run to its end. Once in 15.7 million cases (thorough
+			// tier, C16 Head) the goroutine dump did not show a feeder that had not even started;
+			// the flags decide, the dump is asked again.
+			allFed := true
+			for i := range fdone {
+				if atomic.LoadInt32(&fdone[i]) == 0 {
+					allFed = false
+				}
+			}
+			if allFed || spin > 100000 {
+				return finish("ok", "")
+			}
+			atomic.AddInt64(&CensusAnomalies, 1)
+			runtime.Gosched()
+			continue
 		}
 		if opt.SpinLimit > 0 && spin > 3000 && time.Since(closedAt) > 6*opt.SpinLimit {
 			return finish("leak", fmt.Sprintf("outputs closed, but %d goroutines are still there %v later:\n%s", len(rel), 6*opt.SpinLimit, census.Describe(rel, 6)))
